@@ -20,9 +20,12 @@ import (
 
 	"github.com/quic-go/quic-go"
 	"go.uber.org/zap"
+	"go.uber.org/zap/zapcore"
 
 	"go.miragespace.co/specter/overlay"
 	"go.miragespace.co/specter/spec/protocol"
+
+	"verif/harness/overlay/gate"
 )
 
 // syncTimeout bounds every wait for an explicit notification (gate arrival, connection
@@ -177,24 +180,41 @@ type rpeer struct {
 	dialed   chan *quic.Conn
 	accepted chan *quic.Conn
 	lis      *obsListener
+	watch    *watchSink
 }
 
-func newRPeer(name string) (*rpeer, error) {
-	e, err := newEndpoint(name)
+// endpointPair makes two endpoints; the first has the lexically lower address iff firstLower.
+// (A fix of the simultaneous-open race has to break the tie by comparing identities, so the
+// harness controls which peer has the lower one.)
+func endpointPair(n1, n2 string, firstLower bool) (*endpoint, *endpoint, error) {
+	e1, err := newEndpoint(n1)
 	if err != nil {
-		return nil, err
+		return nil, nil, err
 	}
+	e2, err := newEndpoint(n2)
+	if err != nil {
+		e1.close()
+		return nil, nil, err
+	}
+	if (e1.addr < e2.addr) != firstLower {
+		e1.name, e2.name = n2, n1
+		e1, e2 = e2, e1
+	}
+	return e1, e2, nil
+}
+
+func newRPeerOn(e *endpoint) *rpeer {
 	_, cli, _ := tlsConfigs()
-	p := &rpeer{endpoint: e, dialed: make(chan *quic.Conn, 16), accepted: make(chan *quic.Conn, 16)}
+	p := &rpeer{endpoint: e, dialed: make(chan *quic.Conn, 16), accepted: make(chan *quic.Conn, 16), watch: &watchSink{dir: map[int64]string{}}}
 	p.lis = &obsListener{ln: e.ln, accepted: p.accepted}
 	p.t = overlay.NewQUIC(overlay.TransportConfig{
-		Logger:           zap.NewNop(),
+		Logger:           zap.New(&watchCore{sink: p.watch}),
 		QuicTransport:    &obsDialer{qt: e.qt, dialed: p.dialed},
 		Endpoint:         &protocol.Node{Address: e.addr},
 		ClientTLS:        cli.Clone(),
 		VirtualTransport: true, // the chord transport's configuration: one connection per peer address
 	})
-	return p, nil
+	return p
 }
 
 func waitCh[T any](ch <-chan T, what string) (T, error) {
@@ -231,3 +251,48 @@ func closeCode(c *quic.Conn) (code int64, remote bool) {
 	}
 	return -1, false
 }
+
+// watchSink records, per goroutine, the direction field of the close watcher's log line
+// ("Connection with peer closed", written by the goroutine handlePeer starts, right before
+// it calls reapPeer). The replayer uses it to tell two watchers of one transport apart when
+// one step makes both runnable.
+type watchSink struct {
+	mu  sync.Mutex
+	dir map[int64]string
+}
+
+func (w *watchSink) get(goid int64) string {
+	w.mu.Lock()
+	defer w.mu.Unlock()
+	return w.dir[goid]
+}
+
+type watchCore struct {
+	sink *watchSink
+	dir  string
+}
+
+func (c *watchCore) Enabled(zapcore.Level) bool { return true }
+func (c *watchCore) With(fs []zapcore.Field) zapcore.Core {
+	n := &watchCore{sink: c.sink, dir: c.dir}
+	for _, f := range fs {
+		if f.Key == "direction" && f.Type == zapcore.StringType {
+			n.dir = f.String
+		}
+	}
+	return n
+}
+func (c *watchCore) Check(e zapcore.Entry, ce *zapcore.CheckedEntry) *zapcore.CheckedEntry {
+	if e.Message == "Connection with peer closed" {
+		return ce.AddCore(e, c)
+	}
+	return ce
+}
+func (c *watchCore) Write(zapcore.Entry, []zapcore.Field) error {
+	g := gate.Goid()
+	c.sink.mu.Lock()
+	c.sink.dir[g] = c.dir
+	c.sink.mu.Unlock()
+	return nil
+}
+func (c *watchCore) Sync() error { return nil }
